@@ -99,6 +99,7 @@ def errToken : Err → String
   | .sdo => "Sdo"
   | .notFoundFmmu => "NotFoundFmmu"
   | .pdiTooLong mx d => s!"TooLong.{mx}.{d}"
+  | .intConv => "IntConv"
 
 /-- ring indices of the members of a slot -/
 def memberIdx (devs : List (Device × Nat)) (slot : Nat) : List Nat :=
